@@ -168,7 +168,8 @@ impl VmStateIterator {
             memory: self.chiplets.get_mem_state_at(ctx, self.clk),
         });
 
-        self.clk -= 1;
+        // the state at clk 0 is the earliest one; stay there instead of wrapping around
+        self.clk = self.clk.saturating_sub(1);
 
         result
     }
